@@ -315,6 +315,12 @@ def run_sim(spec, listeners=(), failpoints=None, device=None, seed_solution=None
 
     tc_before = _copy.deepcopy(tc) if isinstance(tc, dict) else None
     opt_before = _dc.asdict(options)
+    seed_before = None
+    if seed_solution is not None:
+        # a seed solution is an input too: what it holds (the state it was loaded with) is the same afterwards
+        sd = seed_solution.tdgl_data
+        seed_before = {f: np.array(getattr(sd, f), copy=True) for f in ("psi", "mu", "supercurrent", "normal_current", "induced_vector_potential", "applied_vector_potential", "epsilon")
+                       if isinstance(getattr(sd, f, None), np.ndarray)}
     rec = Recorder(listeners, failpoints)
     rr.recorder = rec
     rr.solution = None
@@ -354,6 +360,12 @@ def run_sim(spec, listeners=(), failpoints=None, device=None, seed_solution=None
         rr.mutated.append({"input": "terminal_currents dict", "before": {k: float(v) for k, v in tc_before.items()}, "after": {k: float(v) for k, v in tc.items()}})
     if callable(tc) and getattr(tc, "pristine", None) is not None and tc.phases != tc.pristine:
         rr.mutated.append({"input": "dicts returned by the terminal_currents callable", "before": [dict(p) for p in tc.pristine[:2]], "after": [dict(p) for p in tc.phases[:2]]})
+    if seed_before is not None:
+        sd = seed_solution.tdgl_data
+        for f, was in seed_before.items():
+            now = np.asarray(getattr(sd, f))
+            if now.shape != was.shape or not np.array_equal(now, was, equal_nan=True):
+                rr.mutated.append({"input": "seed solution", "field": f, "max_abs_change": float(np.max(np.abs(now - was))) if now.shape == was.shape else None})
     opt_after = _dc.asdict(options)
     ch = [k for k in opt_before if opt_before[k] != opt_after.get(k)]
     if ch:
